@@ -287,6 +287,8 @@ type exchangeCase struct {
 	Status   int    `json:"backend_status,omitempty"`
 	Client   string `json:"x_forwarded_for,omitempty"`
 	Reuse    bool   `json:"reuse_conn,omitempty"`
+	Interim  bool   `json:"backend_interim_103,omitempty"` // the backend sends "103 Early Hints" before its final response
+	Backend  string `json:"backend_id_headers,omitempty"`  // "": none; "echo": the backend copies the ID headers it received into its response; "own": it sends values of its own under those names
 	Excluded string `json:"-"`
 }
 
@@ -331,6 +333,8 @@ func genExchange(t *rapid.T, lc labCfg, st *labState) exchangeCase {
 	ec.Trace = genIDVal(t, "trace", ts)
 	ec.Status = rapid.SampledFrom(proxiedStatuses).Draw(t, "status")
 	ec.Reuse = rapid.Bool().Draw(t, "reuse")
+	ec.Interim = rapid.IntRange(0, 4).Draw(t, "interim") == 0
+	ec.Backend = rapid.SampledFrom([]string{"", "", "", "", "", "", "echo", "own"}).Draw(t, "backend-ids")
 	if lc.RateLimit {
 		// the limiter attributes a request to the first X-Forwarded-For element (documented), so a
 		// client address is chosen per exchange: a used one for the 429 path, a fresh one otherwise
